@@ -1,12 +1,15 @@
 package main
 
 import (
+	"fmt"
+	"math"
+	"sync"
 	"time"
 )
 
 // Abstract calendar for symbolic schedules (integer encoding only).
-// An instant is Abs = seconds since 2024-01-07T00:00:00Z (a Sunday); it carries the fixed-offset zone it is
-// expressed in. Year()/Month()/Day() return (2024, 1, 7+D) where D is the local day number: the code only
+// An instant is Abs = seconds since 2024-01-07T00:00:00Z (a Sunday); it carries the zone it is expressed in (fixed
+// offset, or a real zone with shifts whose offset is a case split over the instant). Year()/Month()/Day() return (2024, 1, 7+D) where D is the local day number: the code only
 // feeds them back into time.Date, which is modelled as the inverse (Go normalises day-of-month overflow the same way).
 
 var symEpoch = time.Date(2024, time.January, 7, 0, 0, 0, 0, time.UTC)
@@ -14,22 +17,154 @@ var symEpoch = time.Date(2024, time.January, 7, 0, 0, 0, 0, time.UTC)
 type SymTime struct {
 	Abs        *Term
 	Loc        *time.Location
-	D, H, M, S *Term // calendar decomposition valid in zones whose offset is DecOff (nil if not available)
-	DecOff     int64
+	D, H, M, S *Term  // calendar decomposition valid in zones with the signature DecZone (nil if not available)
+	DecZone    string // "fixed:<offset>" or "tz:<name>:<pointer>"
 }
 
 func i64c(v int64) *Term { return mkConst(v, 64, true) }
 
-func zoneOffset(m *Machine, loc *time.Location) int64 {
+// A zone is a list of periods [from, next.from) with a constant offset, read from the real *time.Location (tz database
+// zone or one built by time.LoadLocationFromTZData) for the instants within 400 days of the abstract epoch.
+type zonePeriod struct{ from, off int64 }
+
+var (
+	zoneMu    sync.Mutex
+	zoneCache = map[*time.Location][]zonePeriod{}
+)
+
+const zoneSpanDays = 400
+
+func zonePeriods(loc *time.Location) []zonePeriod {
 	if loc == nil {
 		inconclusive("nil location in symbolic time")
 	}
-	_, o1 := time.Date(2024, 1, 7, 0, 0, 0, 0, loc).Zone()
-	_, o2 := time.Date(2024, 7, 7, 0, 0, 0, 0, loc).Zone()
-	if o1 != o2 {
-		inconclusive("zone with daylight-saving shifts in symbolic time")
+	zoneMu.Lock()
+	defer zoneMu.Unlock()
+	if p, ok := zoneCache[loc]; ok {
+		return p
 	}
-	return int64(o1)
+	lo, hi := symEpoch.AddDate(0, 0, -zoneSpanDays), symEpoch.AddDate(0, 0, zoneSpanDays)
+	var ps []zonePeriod
+	t := lo.In(loc)
+	for {
+		_, off := t.Zone()
+		start, end := t.ZoneBounds()
+		from := int64(math.MinInt64)
+		if len(ps) > 0 && !start.IsZero() {
+			from = start.Unix() - symEpoch.Unix()
+		}
+		if n := len(ps); n > 0 && ps[n-1].off == int64(off) {
+			// same offset as the period before (only the abbreviation changed)
+		} else {
+			ps = append(ps, zonePeriod{from: from, off: int64(off)})
+		}
+		if end.IsZero() || !end.Before(hi) {
+			break
+		}
+		t = end.In(loc)
+	}
+	zoneCache[loc] = ps
+	return ps
+}
+
+func zoneSig(loc *time.Location) string {
+	ps := zonePeriods(loc)
+	if len(ps) == 1 {
+		return fmt.Sprintf("fixed:%d", ps[0].off)
+	}
+	return fmt.Sprintf("tz:%s:%p", loc.String(), loc)
+}
+
+// zoneOffsetAt: the offset in force at the instant x (seconds since the abstract epoch, UTC), as a term.
+func zoneOffsetAt(m *Machine, loc *time.Location, x *Term) *Term {
+	ps := zonePeriods(loc)
+	if len(ps) > 1 {
+		m.zoneSpanCheck(x)
+	}
+	r := i64c(ps[len(ps)-1].off)
+	for k := len(ps) - 2; k >= 0; k-- {
+		r = mkIte(mkCmp("lt", x, i64c(ps[k+1].from)), i64c(ps[k].off), r)
+	}
+	return r
+}
+
+// zoneBoundsAt: start and end of the period containing x (open ends are +-2^62).
+func zoneBoundsAt(loc *time.Location, x *Term) (*Term, *Term) {
+	ps := zonePeriods(loc)
+	const far = int64(1) << 62
+	n := len(ps)
+	st, en := i64c(ps[n-1].from), i64c(far)
+	if n == 1 {
+		return i64c(-far), en
+	}
+	for k := n - 2; k >= 0; k-- {
+		c := mkCmp("lt", x, i64c(ps[k+1].from))
+		from := ps[k].from
+		if k == 0 {
+			from = -far
+		}
+		st = mkIte(c, i64c(from), st)
+		en = mkIte(c, i64c(ps[k+1].from), en)
+	}
+	return st, en
+}
+
+// zoneSpanCheck: the zone table covers +-400 days around the epoch; an instant that can lie outside ends the path.
+func (m *Machine) zoneSpanCheck(x *Term) {
+	if x.IsConst() {
+		if x.K < -zoneSpanDays*86400+86400 || x.K > zoneSpanDays*86400-86400 {
+			inconclusive("instant outside the span of the zone table")
+		}
+		return
+	}
+	if m.zoneChecked == nil {
+		m.zoneChecked = map[*Term]bool{}
+	}
+	if m.zoneChecked[x] {
+		return
+	}
+	lim := int64(zoneSpanDays-1) * 86400
+	out := mkOr(mkCmp("lt", x, i64c(-lim)), mkCmp("lt", i64c(lim), x))
+	if m.solver.Check(out) != Unsat {
+		inconclusive("symbolic instant may lie outside the span of the zone table")
+	}
+	m.zoneChecked[x] = true
+}
+
+// dateToAbs is time.Date for the abstract calendar: local day number D and clock fields -> instant, with Go's rule
+// for picking the offset (look the local time up as if it were UTC, correct once if that period does not contain it).
+// The second result says that the local time asked for exists exactly once (always so in a zone with one offset), so
+// that (D,H,M,S) is the calendar decomposition of the result.
+func dateToAbs(m *Machine, loc *time.Location, D, H, M, S *Term) (*Term, bool) {
+	local := mkArith("add", mkArith("mul", D, i64c(86400)), mkArith("add", mkArith("mul", H, i64c(3600)), mkArith("add", mkArith("mul", M, i64c(60)), S)))
+	ps := zonePeriods(loc)
+	if len(ps) == 1 {
+		return mkArith("sub", local, i64c(ps[0].off)), true
+	}
+	m.zoneSpanCheck(local)
+	// local times skipped or repeated by a shift at X from offset a to b: [X+min(a,b), X+max(a,b))
+	amb := tFalse
+	for k := 0; k+1 < len(ps); k++ {
+		x, a, b := ps[k+1].from, ps[k].off, ps[k+1].off
+		lo, hi := x+a, x+b
+		if lo > hi {
+			lo, hi = hi, lo
+		}
+		amb = mkOr(amb, mkAnd(mkCmp("le", i64c(lo), local), mkCmp("lt", local, i64c(hi))))
+	}
+	if m.solver.Check(amb) == Unsat {
+		off := i64c(ps[len(ps)-1].off)
+		for k := len(ps) - 2; k >= 0; k-- {
+			off = mkIte(mkCmp("lt", local, i64c(ps[k+1].from+ps[k].off)), i64c(ps[k].off), off)
+		}
+		return mkArith("sub", local, off), true
+	}
+	off1 := zoneOffsetAt(m, loc, local)
+	st, en := zoneBoundsAt(loc, local)
+	utc := mkArith("sub", local, off1)
+	outside := mkOr(mkCmp("lt", utc, st), mkCmp("le", en, utc))
+	off := mkIte(outside, zoneOffsetAt(m, loc, utc), off1)
+	return mkArith("sub", local, off), false
 }
 
 func fdiv(a *Term, k int64) *Term {
@@ -55,11 +190,12 @@ func fmod(a *Term, k int64) *Term {
 }
 
 func (st *SymTime) decompose(m *Machine) {
-	if st.D != nil && st.DecOff == zoneOffset(m, st.Loc) {
+	sig := zoneSig(st.Loc)
+	if st.D != nil && st.DecZone == sig {
 		return
 	}
-	st.DecOff = zoneOffset(m, st.Loc)
-	local := mkArith("add", st.Abs, i64c(zoneOffset(m, st.Loc)))
+	st.DecZone = sig
+	local := mkArith("add", st.Abs, zoneOffsetAt(m, st.Loc, st.Abs))
 	sod := fmod(local, 86400)
 	st.D = fdiv(local, 86400)
 	st.H = fdiv(sod, 3600)
@@ -109,12 +245,12 @@ func symDate(m *Machine, a []Val) (Val, bool) {
 	tt := func(v Val) *Term { return toTermW(v, 64, true) }
 	D := mkArith("sub", tt(a[2]), i64c(7))
 	H, M, S := tt(a[3]), tt(a[4]), tt(a[5])
-	abs := mkArith("add", mkArith("mul", D, i64c(86400)), mkArith("add", mkArith("mul", H, i64c(3600)), mkArith("add", mkArith("mul", M, i64c(60)), S)))
-	abs = mkArith("sub", abs, i64c(zoneOffset(m, loc)))
+	abs, once := dateToAbs(m, loc, D, H, M, S)
 	st := &SymTime{Abs: abs, Loc: loc}
-	// the decomposition is only canonical when h,m,s are in range; keep it when they are known to be
-	if inRange(m, H, 0, 23) && inRange(m, M, 0, 59) && inRange(m, S, 0, 59) {
-		st.D, st.H, st.M, st.S, st.DecOff = D, H, M, S, zoneOffset(m, loc)
+	// the decomposition is only canonical when h,m,s are in range and that local time exists exactly once (in a zone
+	// with shifts it may not exist or exist twice); keep it when that is known
+	if once && inRange(m, H, 0, 23) && inRange(m, M, 0, 59) && inRange(m, S, 0, 59) {
+		st.D, st.H, st.M, st.S, st.DecZone = D, H, M, S, zoneSig(loc)
 	}
 	return st, true
 }
@@ -178,15 +314,32 @@ func symTimeMethod(m *Machine, fr *frame, name string, st *SymTime, a []Val) Val
 			inconclusive("AddDate months on symbolic time")
 		}
 		n := toTermW(a[2], 64, true)
+		if len(zonePeriods(st.Loc)) > 1 {
+			// Go: AddDate = Date(year, month, day+n, hour, min, sec) in the value's location
+			st.decompose(m)
+			D1 := mkArith("add", st.D, n)
+			abs, once := dateToAbs(m, st.Loc, D1, st.H, st.M, st.S)
+			r := &SymTime{Abs: abs, Loc: st.Loc}
+			if once {
+				r.D, r.H, r.M, r.S, r.DecZone = D1, st.H, st.M, st.S, st.DecZone
+			}
+			return r
+		}
 		r := &SymTime{Abs: mkArith("add", st.Abs, mkArith("mul", n, i64c(86400))), Loc: st.Loc}
-		if st.D != nil {
-			r.D, r.H, r.M, r.S, r.DecOff = mkArith("add", st.D, n), st.H, st.M, st.S, st.DecOff
+		if st.D != nil && st.DecZone == zoneSig(st.Loc) {
+			r.D, r.H, r.M, r.S, r.DecZone = mkArith("add", st.D, n), st.H, st.M, st.S, st.DecZone
 		}
 		return r
 	case "Add":
+		if dt, ok := a[0].(*Term); ok {
+			if m.solver.Check(mkNot(mkCmp("eq", fmod(dt, 1e9), i64c(0)))) != Unsat {
+				inconclusive("Time.Add of a possibly sub-second symbolic duration on symbolic time")
+			}
+			return &SymTime{Abs: mkArith("add", st.Abs, fdiv(dt, 1e9)), Loc: st.Loc}
+		}
 		d, ok := a[0].(int64)
 		if !ok || d%1e9 != 0 {
-			inconclusive("Time.Add of symbolic or sub-second duration on symbolic time")
+			inconclusive("Time.Add of sub-second duration on symbolic time")
 		}
 		return &SymTime{Abs: mkArith("add", st.Abs, i64c(d/1e9)), Loc: st.Loc}
 	case "Sub":
